@@ -82,6 +82,9 @@ MENU = {
     "download-existing": (["download", "MIT"], "."),
     # the working directory is *a* directory called LICENSES, but not the project's
     "download-from-foreign-licenses-dir": (["--root", "../..", "download", "ISC"], "vendor/LICENSES"),
+    # 'identifiers' that are really paths (a typo, a hostile SPDX-License-Identifier picked up by --all)
+    "download-path-as-identifier": (["download", "../../outside/newdir/MIT"], "."),
+    "download-subdir-as-identifier": (["download", "GPL-3.0/or-later"], "."),
     "download": (["download", "0BSD"], "."), "download-all": (["download", "--all"], "."), "download-o": (["download", "-o", "third-party/L.txt", "ISC"], "."),
 }
 READONLY = {"lint", "lint-json", "lint-lines", "lint-quiet", "lint-mp", "lint-file", "lint-from-src", "spdx", "supported-licenses", "help", "version", "annotate-help"}
